@@ -215,6 +215,28 @@ Theorem c15_sort_headers_fix_conservative : forall hs,
 Proof. exact sort_headers_fixed_same. Qed.
 Print Assumptions c15_sort_headers_fix_conservative.
 
+(* ---- ImageConfiguration.Load: the include chain. A configuration that includes itself, or
+   two that include each other, are loaded without end (finding C15-F6; in Go: the stack grows
+   until fatal error: stack overflow) ---------------------------------------------------------- *)
+Theorem c15_include_cycle_refuted :
+  (forall fuel, load_chain fuel [("apko.yaml", "apko.yaml")]%string "apko.yaml" = OutOfFuel) /\
+  (forall fuel, load_chain fuel [("a", "b"); ("b", "a")]%string "a" = OutOfFuel).
+Proof. split; [intro; apply load_chain_self_diverges; discriminate|intro fuel; exact (proj1 (load_chain_two_diverges fuel))]. Qed.
+Print Assumptions c15_include_cycle_refuted.
+(* the proposed repair (fixes/C15-F6.patch: refuse a path that is already being loaded) ends on
+   every set of files, with one step per file, and whenever it returns a chain today's code
+   returns the same one; conversely it returns every chain without repetition that today's code returns *)
+Theorem c15_include_fix_terminates : forall fs path, Returns (load_chain_fixed (S (List.length fs)) fs [] path).
+Proof. intros. apply load_chain_fixed_returns; [constructor|intros x []|cbn; lia]. Qed.
+Print Assumptions c15_include_fix_terminates.
+Theorem c15_include_fix_conservative : forall fuel fs path l,
+  (load_chain_fixed fuel fs [] path = Ok l -> load_chain fuel fs path = Ok l) /\
+  (load_chain fuel fs path = Ok l -> NoDup l -> load_chain_fixed fuel fs [] path = Ok l).
+Proof.
+  intros. split; [apply load_chain_fixed_ok|]. intros H N. apply load_chain_fixed_same; [exact H|intros x _ []|exact N].
+Qed.
+Print Assumptions c15_include_fix_conservative.
+
 (* non-vacuity: the readers do return results on well-formed input *)
 Example c15_parse_installed_example :
   exists r, parse_installed (fun _ => None) ("P:a" +++ s_nl +++ "F:usr" +++ s_nl +++ "M:0:0:0700" +++ s_nl +++ s_nl) = Ok r /\ List.length r = 1%nat.
@@ -237,3 +259,7 @@ Example c15_sort_fix_example :
   sort_headers_fixed [dot_dir; mkHdr "./usr/" true 493 0 0 ""; mkHdr "./usr/x" false 420 0 0 ""] =
   Ok [mkHdr "./usr/" true 493 0 0 ""; mkHdr "./usr/x" false 420 0 0 ""].
 Proof. vm_compute. reflexivity. Qed.
+Example c15_include_chain_example :
+  load_chain 5 [("a", "b"); ("b", "c"); ("c", "")]%string "a" = Ok ["a"; "b"; "c"]%string /\
+  load_chain_fixed 4 [("a", "b"); ("b", "a")]%string [] "a" = Err.
+Proof. vm_compute. split; reflexivity. Qed.
